@@ -36,7 +36,17 @@ impl Sl {
     // &[] / &mut []: an empty slice somewhere else
     #[verifier::external_body]
     pub fn empty() -> (s: Sl) ensures s.len == 0 { unimplemented!() }
+    // the same, typed: `&[]` where a slice of items spanning `stride` elements each is expected
+    #[verifier::external_body]
+    pub fn empty_of(stride: usize) -> (s: Sl) ensures s.len == 0, s.stride == stride { unimplemented!() }
 }
+// NonNull::dangling().as_ref() / as_mut(): a well-aligned address that is NOT derived from any reference in scope (nothing is known about it)
+#[verifier::external_body]
+pub fn dangling_ref() -> (s: Sl) { unimplemented!() }
+// mem::size_of::<T>(): some fixed size, possibly zero
+pub uninterp spec fn size_of_t() -> usize;
+#[verifier::external_body]
+pub fn size_of_elem() -> (r: usize) ensures r == size_of_t() { unimplemented!() }
 impl Ptr {
     // `p as *const X`: same address and provenance, the pointee now spans `stride` elements
     #[verifier::external_body]
@@ -65,19 +75,31 @@ pub struct LengthError;
 
 proof fn lemma_chunks(l: usize, n: usize)
     requires n > 0,
-    ensures (l / n) * n <= l, l - (l / n) * n == l % n,
+    ensures (l / n) * n <= l, l - (l / n) * n == l % n, l < n ==> l / n == 0 && l % n == l, l == n ==> l / n == 1 && l % n == 0,
 {
     vstd::arithmetic::div_mod::lemma_fundamental_div_mod(l as int, n as int);
     assert((l / n) * n == n * (l / n)) by (nonlinear_arith);
+    let q = (l / n) as int; let r = (l % n) as int;
+    assert(l as int == (n as int) * q + r && 0 <= r < n as int && 0 <= q);
+    if l < n { assert(q == 0) by (nonlinear_arith) requires l as int == (n as int) * q + r, 0 <= r, (l as int) < n as int, n > 0, 0 <= q; }
+    if l == n { assert(q == 1) by (nonlinear_arith) requires l as int == (n as int) * q + r, 0 <= r < n as int, l as int == n as int, n > 0, 0 <= q; }
+}
+// arithmetic facts about L / N and L % N offered to every chunking function at entry (a body that takes a different but
+// equivalent route - an early return for L < N, say - must not fail for want of a division lemma)
+proof fn lemma_chunks_entry(l: usize, n: usize)
+    ensures n > 0 ==> (l / n) * n <= l && l - (l / n) * n == l % n && (l < n ==> l / n == 0 && l % n == l) && (l == n ==> l / n == 1 && l % n == 0),
+{
+    if n > 0 { lemma_chunks(l, n); }
 }
 
 // const_transmute: reading field `b` of `union { a: A, b: B }` after writing `a` reinterprets size_of::<B>() bytes, of which only
 // size_of::<A>() were written: defined only when the sizes agree (what mem::transmute checks at compile time)
-pub struct Bits { pub size: usize }
+// `elems`: the element values stored in those bytes, in address order
+pub struct Bits { pub size: usize, pub ghost elems: Seq<int> }
 #[verifier::external_body]
 pub fn union_reinterpret(a: Bits, size_b: usize) -> (b: Bits)
     requires a.size == size_b,
-    ensures b.size == size_b,
+    ensures b.size == size_b, b.elems == a.elems,
 { unimplemented!() }
 
 // mem::transmute of a reference to a reference of another type with the same total extent: the address is unchanged
@@ -221,14 +243,17 @@ impl Sl {
         ensures
             N::n() == 0 ==> (ret is Panic <==> slice.len != 0), /*OB:chunks_from_slice.post.n0-panics-iff-nonempty:C10,C18*/
             N::n() == 0 && slice.len == 0 ==> ret->Ret_0.0.len == 0 && ret->Ret_0.1.len == 0, /*OB:chunks_from_slice.post.n0-empty-gives-two-empty:C10,C18*/
-            N::n() > 0 ==> ret is Ret && ({ let (c, r) = ret->Ret_0; &&& c.base == slice.base && r.base == slice.base &&& c.stride == N::n() && r.stride == 1 &&& c.len == slice.len / N::n() && r.len == slice.len % N::n() &&& c.start() == slice.start() && c.end() == r.start() && r.end() == slice.end() }), /*OB:chunks_from_slice.post.partition:C10,C18*/
+            N::n() > 0 ==> ret is Ret && ({ let (c, r) = ret->Ret_0; &&& c.stride == N::n() && r.stride == 1 &&& c.len == slice.len / N::n() && r.len == slice.len % N::n() &&& c.len > 0 ==> c.base == slice.base && c.start() == slice.start() &&& r.len > 0 ==> r.base == slice.base && r.start() == slice.start() + c.len * N::n() && r.end() == slice.end() }), /*OB:chunks_from_slice.post.partition:C10,C18*/
     {
+        proof {
+            lemma_chunks_entry(slice.len, N::n());
+        }
         let __r = {
             if N::usize_() == 0 {
                 if !(slice.is_empty()) {
                     return PanicOr::Panic;
                 }
-                return PanicOr::Ret((Sl::empty(), Sl::empty()));
+                return PanicOr::Ret((Sl::empty_of(N::usize_()), Sl::empty_of(1)));
             }
             let num_chunks = slice.len() / N::usize_();
             proof {
@@ -252,14 +277,17 @@ impl Sl {
         ensures
             N::n() == 0 ==> (ret is Panic <==> slice.len != 0), /*OB:chunks_from_slice_mut.post.n0-panics-iff-nonempty:C10,C18*/
             N::n() == 0 && slice.len == 0 ==> ret->Ret_0.0.len == 0 && ret->Ret_0.1.len == 0, /*OB:chunks_from_slice_mut.post.n0-empty-gives-two-empty:C10,C18*/
-            N::n() > 0 ==> ret is Ret && ({ let (c, r) = ret->Ret_0; &&& c.base == slice.base && r.base == slice.base &&& c.stride == N::n() && r.stride == 1 &&& c.len == slice.len / N::n() && r.len == slice.len % N::n() &&& c.start() == slice.start() && c.end() == r.start() && r.end() == slice.end() }), /*OB:chunks_from_slice_mut.post.partition:C10,C18*/
+            N::n() > 0 ==> ret is Ret && ({ let (c, r) = ret->Ret_0; &&& c.stride == N::n() && r.stride == 1 &&& c.len == slice.len / N::n() && r.len == slice.len % N::n() &&& c.len > 0 ==> c.base == slice.base && c.start() == slice.start() &&& r.len > 0 ==> r.base == slice.base && r.start() == slice.start() + c.len * N::n() && r.end() == slice.end() }), /*OB:chunks_from_slice_mut.post.partition:C10,C18*/
     {
+        proof {
+            lemma_chunks_entry(slice.len, N::n());
+        }
         let __r = {
             if N::usize_() == 0 {
                 if !(slice.is_empty()) {
                     return PanicOr::Panic;
                 }
-                return PanicOr::Ret((Sl::empty(), Sl::empty()));
+                return PanicOr::Ret((Sl::empty_of(N::usize_()), Sl::empty_of(1)));
             }
             let num_chunks = slice.len() / N::usize_();
             proof {
@@ -282,7 +310,7 @@ impl Sl {
             slice.valid(),
         ensures
             ret is Ret, /*OB:slice_from_chunks.post.never-panics:C10,C18*/
-            ret->Ret_0.base == slice.base && ret->Ret_0.off == slice.off && ret->Ret_0.stride == 1 && ret->Ret_0.len == slice.len * N::n() && ret->Ret_0.end() == slice.end(), /*OB:slice_from_chunks.post.inverse:C10,C18*/
+            ret->Ret_0.stride == 1 && ret->Ret_0.len == slice.len * N::n() && (ret->Ret_0.len > 0 ==> ret->Ret_0.base == slice.base && ret->Ret_0.off == slice.off && ret->Ret_0.end() == slice.end()), /*OB:slice_from_chunks.post.inverse:C10,C18*/
     {
         let __r = {
             {
@@ -300,7 +328,7 @@ impl Sl {
             slice.valid(),
         ensures
             ret is Ret, /*OB:slice_from_chunks_mut.post.never-panics:C10,C18*/
-            ret->Ret_0.base == slice.base && ret->Ret_0.off == slice.off && ret->Ret_0.stride == 1 && ret->Ret_0.len == slice.len * N::n() && ret->Ret_0.end() == slice.end(), /*OB:slice_from_chunks_mut.post.inverse:C10,C18*/
+            ret->Ret_0.stride == 1 && ret->Ret_0.len == slice.len * N::n() && (ret->Ret_0.len > 0 ==> ret->Ret_0.base == slice.base && ret->Ret_0.off == slice.off && ret->Ret_0.end() == slice.end()), /*OB:slice_from_chunks_mut.post.inverse:C10,C18*/
     {
         let __r = {
             {
@@ -315,7 +343,7 @@ impl Sl {
     pub fn const_transmute(a: Bits, size_b: usize) -> (ret: PanicOr<Bits>)
         ensures
             ret is Panic <==> a.size != size_b, /*OB:const_transmute.post.panics-iff-sizes-differ:C02,C10,C11*/
-            ret is Ret ==> ret->Ret_0.size == size_b, /*OB:const_transmute.post.reinterprets-the-same-bytes:C02,C11*/
+            ret is Ret ==> ret->Ret_0.size == size_b && ret->Ret_0.elems == a.elems, /*OB:const_transmute.post.reinterprets-the-same-bytes:C02,C11*/
     {
         if a.size != size_b {
             return PanicOr::Panic;
@@ -372,6 +400,7 @@ impl Sl {
             N::n() * M::n() <= usize::MAX,
         ensures
             ret is Ret && ret->Ret_0.size == N::n() * M::n(), /*OB:flatten_owned.post.never-panics-same-extent:C11*/
+            ret is Ret ==> ret->Ret_0.elems == a.elems  /* row-major: the M inner arrays lie one after another (lemma_nested, unit layout) */, /*OB:flatten_owned.post.same-element-sequence:C11*/
     {
         {
             const_transmute(a, (N::usize_() * M::usize_()))
@@ -387,6 +416,7 @@ impl Sl {
             NM::n() % N::n() == 0,
         ensures
             ret is Ret && ret->Ret_0.size == NM::n(), /*OB:unflatten_owned.post.never-panics-same-extent:C11*/
+            ret is Ret ==> ret->Ret_0.elems == a.elems, /*OB:unflatten_owned.post.same-element-sequence:C11*/
     {
         {
             ({ proof { vstd::arithmetic::div_mod::lemma_fundamental_div_mod(NM::n() as int, N::n() as int); assert((NM::n() / N::n()) * N::n() == N::n() * (NM::n() / N::n())) by (nonlinear_arith); } const_transmute(a, ((NM::usize_() / N::usize_()) * N::usize_())) })
